@@ -90,6 +90,14 @@ func genHeader(g *Gen, n int) {
 		g.Emit("parse-rand", "hdr.parse "+hx(v))
 		g.Emit("skip-rand", "hdr.skip "+hx(v))
 	}
+	// extension counts around 2^13 (8 * count no longer fits 16 bits): complete values, values
+	// one byte short of their announced extensions, values with nothing behind the header
+	for _, ne := range []int{8191, 8192, 8193} {
+		v := mkStored(3, 4, 0, 1, ne, 0, []byte("app"))
+		g.Emit("parse-large", "hdr.parse "+hx(v), "hdr.skip "+hx(v))
+		g.Emit("parse-large", "hdr.parse "+hx(v[:len(v)-4]), "hdr.skip "+hx(v[:len(v)-4]))
+		g.Emit("parse-large", "hdr.parse "+hx(v[:30]), "hdr.skip "+hx(v[:30]))
+	}
 	if g.Thorough() {
 		for _, ne := range []int{1000, 65535} {
 			v := mkStored(1, 2, 0, 1, ne, 0, randBytes(g.R, 100))
